@@ -309,7 +309,9 @@ func r2close(c *core.Ctx, fn *core.Fn) {
 	ok, w := g.MustPassToExit(g.Entry(), false, func(n ast.Node) bool { return has(condCalls(info, n, "Broadcast"), "rwait") })
 	c.Check("R2.wake", "CloseWithError/broadcast", fn.Decl.Pos(), ok, "CloseWithError must Broadcast on rwait on every path: closing wakes every waiting reader", w...)
 	// the store is closed whenever it is non-nil
-	closeCall := g.HasCall(func(call *ast.CallExpr, _ types.Object) bool { return pat.Expr("_p.store.close()").Match(info, call, nil) != nil })
+	closeCall := g.HasCall(func(call *ast.CallExpr, _ types.Object) bool {
+		return pat.Expr("_p.store.close()").Match(info, call, nil) != nil
+	})
 	w2 := g.Path(cfgq.Query{From: g.Entry(), Avoid: closeCall, TargetExit: cfgq.NormalExit,
 		AvoidEdge: func(b *cfg.Block, s int) bool {
 			return cfgq.EdgeEstablishes(b, s, func(f cfgq.Fact) bool {
